@@ -4,6 +4,7 @@
 From Coq Require Import List Bool Arith Lia.
 From VV Require Import Sched.Model Sched.Defs Sched.Inv Sched.ProofsC01 Sched.ProofsC04.
 From VV Require Import Sched.EnvApply Sched.EnvApplyProofs.
+From VV Require Import Sched.Result Sched.ResultProofs.
 Import ListNotations.
 
 Definition deps0 (t : nat) : list nat := match t with 1 => [0] | 2 => [1] | _ => [] end.
@@ -274,3 +275,17 @@ Example apply_ex_fails :
   /\ get_path old_ex [4] = Some (Leaf 7)
   /\ merge (Dict [(4, Dict [])]) old_ex = Some old_ex.
 Proof. vm_compute. auto. Qed.
+
+(* what the worker makes of returned values (Sched/Result.v): a well-formed DONE result with a
+   merged update, the same with an update that cannot be merged, an integer status, a read-only
+   own entry, a status that is not final, a value that is not a pair *)
+Example result_ex :
+  worker_outcome (Pair (UMap OwnMutable) (StMember DONE)) true = mkO true true
+  /\ worker_outcome (Pair (UMap OwnMutable) (StMember DONE)) false = mkO false false
+  /\ worker_outcome (Pair UNone (StCode 3)) false = mkO false true
+  /\ worker_outcome (Pair (UMap OwnReadOnly) (StMember DONE)) true = mkO false false
+  /\ worker_outcome (Pair (UMap OwnAbsent) (StMember SKIPPED)) true = mkO false false
+  /\ worker_outcome (Pair (UMap OwnAbsent) (StMember FAILED)) true = mkO true false
+  /\ worker_outcome NotPair true = mkO false false
+  /\ well_formed (Pair (UMap OwnAbsent) (StCode 4)) = true.
+Proof. vm_compute. repeat split. Qed.
